@@ -16,6 +16,7 @@ let rec tree_of (v : resp) : string =
 let rec parse_tree (s : string) (i : int) : resp * int =
   match s.[i] with
   | 'n' -> (RBulk None, i + 1)
+  | 'N' -> (RArr [], i + 1)      (* an array message whose array was never set: serialised as the empty array *)
   | ('s' | 'e' | 'i' | 'b') as c ->
     let j = String.index_from s i ')' in
     let payload = bytes_of_hex (String.sub s (i + 2) (j - i - 2)) in
